@@ -1132,7 +1132,16 @@ from harness.lib import idgen as G
 G.setup()
 from harness.lib import components as C
 from semantiva.inspection import build_inspection_payload
-cfgs = json.load(sys.stdin)
+def unmark(x):
+    # JSON has no sets: {"@set": [...]} stands for what YAML's !!set gives
+    if isinstance(x, dict) and set(x) == {"@set"}:
+        return set(unmark(v) for v in x["@set"])
+    if isinstance(x, dict):
+        return {k: unmark(v) for k, v in x.items()}
+    if isinstance(x, list):
+        return [unmark(v) for v in x]
+    return x
+cfgs = unmark(json.load(sys.stdin))
 out = []
 for nodes in cfgs:
     for n in nodes:
@@ -1164,6 +1173,10 @@ def hashseed_configs():
                "derive": {"parameter_sweep": {"parameters": {"gamma": "2 * t", "alpha": "t"}, "variables": {"t": {"lo": 0.0, "hi": 1.0, "steps": 3}},
                                               "collection": "FloatDataCollection"}}}],
         [src, {"processor": many}],
+        # sweep values that are sets (YAML !!set): their text depends on the interpreter's hash seed
+        [src, {"processor": "FloatMultiplyOperation", "derive": {"parameter_sweep": {
+            "parameters": {"factor": "t"}, "variables": {"t": [{"@set": ["alpha", "beta", "gamma", "delta"]}, {"@set": ["x", "y", "z"]}]},
+            "collection": "FloatDataCollection"}}}],
         # required keys that only differ in case / compare equal after case folding: the reported list has ONE order
         [src, {"processor": "rename:Gain:a"}, {"processor": "rename:gain:b"}, {"processor": "rename:GAIN:c"}, {"processor": "rename:offset:d"},
          {"processor": "rename:stra\u00dfe:e"}, {"processor": "rename:strasse:f"}, {"processor": "rename:STRASSE:g"}],
